@@ -193,6 +193,9 @@ def inline_temporaries(fn_node: ast.AST, rounds: int = 4) -> ast.AST:
             if any(isinstance(x, (ast.Yield, ast.YieldFrom, ast.Await, ast.NamedExpr)) for x in ast.walk(val)):
                 continue
             cands[name] = st
+        # substitute leaves first: a candidate whose value mentions another candidate waits for the next round
+        leaves = {n: st for n, st in cands.items() if not any(isinstance(x, ast.Name) and x.id in cands and x.id != n for x in ast.walk(st.value))}
+        cands = leaves or {}
         if not cands:
             break
 
